@@ -41,7 +41,7 @@ Sat(v, c) ==
     [] c.op = "<"  -> preOK /\ Less(v, c.v)
     [] c.op = "<=" -> preOK /\ Leq(v, c.v)
     [] c.op = "^"  -> preOK /\ Leq(c.v, v) /\ v[1] = c.v[1]
-    [] c.op = "~"  -> preOK /\ Leq(c.v, v) /\ v[1] = c.v[1] /\ v[2] = c.v[2]
+    [] c.op = "~"  -> preOK /\ Leq(c.v, v) /\ ((c.v[1] = 0 /\ c.v[2] = 0 /\ c.v[3] = 0) \/ (v[1] = c.v[1] /\ v[2] = c.v[2]))    \* the library documents ~0.0.0 as ">= 0.0.0"
 CText(c) == IF c.op = "" THEN "" ELSE IF c.op = "*" THEN "*" ELSE c.op \o VText(c.v)
 
 MaxV(S) == CHOOSE v \in S : \A w \in S : Leq(w, v)
